@@ -37,7 +37,8 @@ RECURSIVE SfnRes(_, _, _, _, _, _)
 (* Call of Node-keyed function g from a body: tab[g] >= 0 cuts the recursion (used by the  *)
 (* fixpoint semantics); g on the stack is a dependency cycle.                              *)
 CallFn(P, S, tab, vis, g) ==
-    IF tab[g] >= 0 THEN Res(tab[g], <<>>, <<>>, <<>>, "")
+    IF tab[g] = -7 THEN ErrRes("diverge")
+    ELSE IF tab[g] >= 0 THEN Res(tab[g], <<>>, <<>>, <<>>, "")
     ELSE IF g \in vis THEN ErrRes("cycle")
     ELSE Run(P, S, tab, vis \cup {g}, P.fns[g], St0(<<>>, <<>>))
 
@@ -48,8 +49,11 @@ SfnRes(P, S, tab, vis, m, sr) ==
 
 Run(P, S, tab, vis, def, st) ==
     LET nd == def.nodes[st.n]
-        Out(v) == [Res(v, [i \in 1..Len(st.own) |-> st.hs[st.own[i]]], st.acc, st.cs, "")
-                      EXCEPT !.is = [i \in 1..Len(st.iown) |-> st.is[st.iown[i]]]]
+        fwd == "fwd" \in DOMAIN def /\ def.fwd # 0 /\ def.kind \notin {"splain", "sspec", "iplain"}
+        Out(v) == IF fwd
+                  THEN [Res(v, st.hs, st.acc, st.cs, "") EXCEPT !.is = st.is]
+                  ELSE [Res(v, [i \in 1..Len(st.own) |-> st.hs[st.own[i]]], st.acc, st.cs, "")
+                           EXCEPT !.is = [i \in 1..Len(st.iown) |-> st.is[st.iown[i]]]]
         Go(s2) == Run(P, S, tab, vis, def, s2)
         Next(v) == Go([st EXCEPT !.n = Kid(nd, v)])
     IN
@@ -136,12 +140,51 @@ FixInit(P) == [j \in 1..Len(P.fns) |-> IF IsFix(P, j) THEN P.fns[j].init ELSE -1
 
 Lfp(P, S) == FixIter(P, S, FixInit(P), 64)
 
-(* Table of results when cyclic functions are resolved by fixpoint iteration.              *)
+(* Functions whose fixpoint iteration never stabilises (C15), closed under "calls one".     *)
+RECURSIVE DivClose(_, _, _, _)
+DivClose(P, S, tab, n) ==
+    LET more == {j \in 1..Len(P.fns) :
+                    /\ IsFix(P, j) /\ tab[j] # -7
+                    /\ Run(P, S, tab, {}, P.fns[j], St0(<<>>, <<>>)).err = "diverge"}
+    IN IF more = {} \/ n = 0 THEN tab
+       ELSE DivClose(P, S, [j \in 1..Len(P.fns) |-> IF j \in more THEN -7 ELSE tab[j]], n - 1)
+
+(* Table of results when cyclic functions are resolved by fixpoint iteration (C12, C15).    *)
 SemTableFix(P, S) ==
-    LET L == Lfp(P, S) IN
+    LET L == Lfp(P, S)
+        T2 == FixStep(P, S, L.tab)
+        tab0 == [j \in 1..Len(P.fns) |-> IF IsFix(P, j) /\ T2[j] # L.tab[j] THEN -7 ELSE L.tab[j]]
+        tab == IF L.stable THEN L.tab ELSE DivClose(P, S, tab0, Len(P.fns))
+    IN
     [j \in 1..Len(P.fns) |->
-        IF IsFix(P, j) THEN Res(L.tab[j], <<>>, <<>>, <<>>, IF L.stable THEN "" ELSE "diverge")
-        ELSE CallFn(P, S, L.tab, {}, j)]
+        IF IsFix(P, j)
+        THEN (IF tab[j] = -7 THEN ErrRes("diverge") ELSE Res(tab[j], <<>>, <<>>, <<>>, ""))
+        ELSE CallFn(P, S, tab, {}, j)]
+
+(***************************************************************************)
+(* Fallback cycles (C13).  The call graph is determined by the inputs      *)
+(* (bodies of these families only call through `orcall`, whose reachability*)
+(* depends on input reads alone).  A function of kind "fb" that lies on a   *)
+(* cycle of that graph returns its fallback value; everything else is      *)
+(* evaluated on top of those values.                                       *)
+(***************************************************************************)
+ZeroTab(P) == [j \in 1..Len(P.fns) |-> 0]
+CallEdges(P, S, j) ==
+    LET r == Run(P, S, ZeroTab(P), {}, P.fns[j], St0(<<>>, <<>>)) IN {r.cs[i] : i \in 1..Len(r.cs)}
+
+RECURSIVE ReachFrom(_, _, _, _)
+ReachFrom(P, S, front, seen) ==
+    LET nxt == UNION {CallEdges(P, S, j) : j \in front} \ seen IN
+    IF nxt = {} THEN seen ELSE ReachFrom(P, S, nxt, seen \cup nxt)
+
+OnCycle(P, S, j) == LET e == CallEdges(P, S, j) IN j \in ReachFrom(P, S, e, e)
+
+FbTab(P, S) == [j \in 1..Len(P.fns) |-> IF IsFb(P, j) /\ OnCycle(P, S, j) THEN P.fns[j].init ELSE -1]
+
+SemTableFb(P, S) ==
+    LET tab == FbTab(P, S) IN
+    [j \in 1..Len(P.fns) |->
+        IF tab[j] >= 0 THEN Res(tab[j], <<>>, <<>>, <<>>, "") ELSE CallFn(P, S, tab, {}, j)]
 
 (***************************************************************************)
 (* Accumulated values (C11): depth-first over call edges in first-call     *)
